@@ -174,17 +174,26 @@ def g_selector(R, tier):
 def g_module(R, tier):
     pn = CL.pn()
     base = "pending_nodes.PendingModule.get_result"
-    for flags in [(False, False, False), (True, False, False), (False, True, False), (True, True, True)]:
+    # every valuation of the boolean state of the module namespace (whatever flags the class declares:
+    # a flag added later is exercised too), C01: only reserved names and the two helper modules are added
+    import itertools as _it
+    NG = CL.nsmod().NamespaceGlobal
+    flag_names = sorted(k for k, v_ in vars(NG).items() if isinstance(v_, bool))
+    R.check(base + "/flags-of-the-module-namespace-found", {"use_itertools", "use_importlib", "use_preset_iter_wrapper"} <= set(flag_names), repr(flag_names))
+    for valuation in _it.product((False, True), repeat=len(flag_names)):
+        val = dict(zip(flag_names, valuation))
+        flags = (val.get("use_itertools", False), val.get("use_importlib", False), val.get("use_preset_iter_wrapper", False))
         def run(c):
             m = Machine(stubs=c13.stubs())
             G = CL.mk_global()
             node = ast.Module(body=[], type_ignores=[])
             self_ = CL.mk_pending(pn.PendingModule, node, G, G, m=m)
             self_.converted_body = c07.R_list("BODY")
-            G.use_itertools, G.use_importlib, G.use_preset_iter_wrapper = flags
+            for k_, b_ in val.items():
+                setattr(G, k_, b_)
             return dict(res=m.call_value(pn.PendingModule.get_result, self_), G=G)
         for p in explore(run):
-            nm = f"{base}[itertools={flags[0]},importlib={flags[1]},iter_wrapper={flags[2]}]"
+            nm = f"{base}[" + ",".join(f"{k_[4:] if k_.startswith('use_') else k_}={b_}" for k_, b_ in val.items()) + "]"
             if p.kind != "ok":
                 R.fail(nm + "/no-unexpected-raise", repr(p.value))
                 continue
@@ -210,7 +219,8 @@ def g_module(R, tier):
             reserved = [n_ for n_ in names if n_ not in ("itertools", "importlib")]
             R.check(nm + "/adds-exactly-the-needed-helper-modules", ok and {n_ for n_ in names if n_ in ("itertools", "importlib")} == want, repr(names),
                     replay=dict(kind="src", src="i = 0\nwhile i < 2:\n    i += 1\nimport os\nfor k in range(3):\n    if k:\n        break\n", expect="same-globals"))
-            R.check(nm + "/other-added-names-are-reserved", all(isinstance(n_, str) and n_.startswith("__ol_") for n_ in reserved) and (len(reserved) == 1) == flags[2], repr(reserved))
+            R.check(nm + "/other-added-names-are-reserved", all(isinstance(n_, str) and n_.startswith("__ol_") for n_ in reserved) and (len(reserved) == 1) == flags[2], repr(reserved),
+                    replay=dict(kind="src", src="class A:\n    y = 1\ntypes = ['mine']\nclass B(A):\n    z = 2\nr = (B.y, B.z, types)\n", expect="same-globals"))
 
 
 def g_simple_statements(R, tier):
@@ -378,3 +388,24 @@ def _ccs(R, tier):
 
 GROUPS["convert_code_string"] = _ccs
 REPLAY.update({k: v for k, v in __import__("suites.c10", fromlist=["REPLAY"]).REPLAY.items() if k not in REPLAY})
+
+
+def replay_long_blocks(rp):
+    """blocks of n statements, n around every multiple of 16 up to 132 (and the small ones): every
+    statement runs, in order, at module level, in a function and in a loop body"""
+    from suites import replay_util as RU
+    sizes = sorted(set(list(range(0, 9)) + [k + d for k in range(16, 133, 16) for d in (-1, 0, 1)] + [49, 50, 51, 99, 100, 101]))
+    for n in sizes:
+        body = [f"log.append({i})" for i in range(n)]
+        src = ("log = []\n" + "\n".join(body) + "\ndef f():\n" + "\n".join("    " + b for b in body + ["return len(log)"])
+               + "\nk = f()\nfor z in range(2):\n" + "\n".join("    " + b for b in body + ["log.append('z')"]) + "\nr = (log, k)\n")
+        rep = RU.replay_source(src, "same-globals", names=["r"])
+        if rep.get("reproduced"):
+            return rep
+    return dict(reproduced=False, sizes=sizes)
+
+
+REPLAY["long-blocks"] = replay_long_blocks
+GROUPS["thorough:long-blocks"] = _th.bounded_from_replay("bounded/blocks-of-up-to-132-statements", replay_long_blocks)
+# bounded stand-ins for undecided obligations (olvc/oblig.py::main_check)
+STANDINS = {"*": [dict(kind="long-blocks"), dict(kind="skeleton")]}
